@@ -221,7 +221,10 @@ def generate(outdir, seed, n_samples=None, n_loci=None, multi_sample_bam=None, b
 def write_bed(path, loci):
     with open(path, "w") as f:
         for (c, a, b, name) in loci:
-            f.write("%s\t%d\t%d\t%s\n" % (c, a, b, name))
+            if name is None:
+                f.write("%s\t%d\t%d\n" % (c, a, b))  # BED3 line: no name
+            else:
+                f.write("%s\t%d\t%d\t%s\n" % (c, a, b, name))
     return path
 
 
